@@ -67,3 +67,37 @@ Definition append_entries_effects_in_order : Prop :=
 
 Theorem append_entries_effects_in_order_holds : append_entries_effects_in_order.
 Proof. vm_compute. repeat split; reflexivity. Qed.
+
+(* ------------------------------------------------------------------ installSnapshot, every path of the source:
+   resp.Success = true is never assigned on a path where the stream delivered another number of bytes than req.Size,
+   where closing the snapshot sink failed, or where the FSM's restore reported an error; once one of these happened
+   the server's applied index / last snapshot are not moved either (setLastApplied, setLastSnapshot). The tree does
+   contain the three conditions, the success assignment and those calls. (C02: "a snapshot restore ... leaves the FSM in
+   exactly the state produced by the agreed entries"; round-2 seed C02b accepted a truncated stream.) *)
+Definition is_cond_ne (c : expr) (a b : string) : bool :=
+  match c with EBin "!=" (EAtom x) (EAtom y) => String.eqb x a && String.eqb y b | _ => false end.
+
+Fixpoint is_paths_ok (failed : bool) (t : tree) : bool :=
+  match t with
+  | TRet _ => true
+  | TEv e k =>
+    (if failed then negb (is_success e) && negb (is_call e "setLastApplied") && negb (is_call e "setLastSnapshot") else true)
+    && is_paths_ok failed k
+  | TLet _ _ k => is_paths_ok failed k
+  | TIf c a b =>
+    if is_cond_ne c "n" "req.Size" || expr_is_err c "err@sink.Close()" || expr_is_err c "err@future.Error()"
+    then is_paths_ok true a && is_paths_ok failed b
+    else is_paths_ok failed a && is_paths_ok failed b
+  end.
+
+Definition install_snapshot_success_only_after_a_complete_restore : Prop :=
+  is_paths_ok false genx_installSnapshot = true /\
+  existsb is_success (tree_events genx_installSnapshot) = true /\
+  existsb (fun e => is_call e "setLastApplied") (tree_events genx_installSnapshot) = true /\
+  existsb (fun e => is_call e "setLastSnapshot") (tree_events genx_installSnapshot) = true /\
+  existsb (fun c => is_cond_ne c "n" "req.Size") (tree_conds genx_installSnapshot) = true /\
+  existsb (fun c => expr_is_err c "err@sink.Close()") (tree_conds genx_installSnapshot) = true /\
+  existsb (fun c => expr_is_err c "err@future.Error()") (tree_conds genx_installSnapshot) = true.
+
+Theorem install_snapshot_success_only_after_a_complete_restore_holds : install_snapshot_success_only_after_a_complete_restore.
+Proof. vm_compute. repeat split; reflexivity. Qed.
